@@ -169,6 +169,11 @@ func execProc(ctx context.Context, r *ldriver.Run, sid, g int, op ProcOp) (ret R
 			}
 		case "Len":
 			ret.N = l.Len()
+		case "LenLoop":
+			// free-running race runs only: many reads, so that one of them falls between the steps of a concurrent writer
+			for i := 0; i < 20000; i++ {
+				ret.N = l.Len()
+			}
 		case "Iterator":
 			ch := make(chan iface.IPFSLogEntry, 4096)
 			if err := l.Iterator(&ipfslog.IteratorOptions{}, ch); err != nil {
@@ -210,7 +215,7 @@ func emptyStates(n int) []world.RepState {
 	out := make([]world.RepState, n)
 	for i := range out {
 		out[i] = world.RepState{Ents: []int{}, Heads: []int{}, RawHeads: []int{}, SnapHeads: []int{}, JSONHeads: []int{},
-			Values: []int{}, SnapValues: []int{}, Nidx: []int{}, Digs: []int{}, GetDigs: []int{}, VDigs: []int{}, OrigDigs: []int{}, Bad: []world.BadRec{}}
+			Values: []int{}, SnapValues: []int{}, Nidx: []int{}, Digs: []int{}, GetDigs: []int{}, VDigs: []int{}, OrigDigs: []int{}, Bad: []world.BadRec{}, StrIDs: []int{}, StrDepth: []int{}}
 	}
 	return out
 }
